@@ -47,6 +47,24 @@ thread_local! {
 
 // Watchdog: milliseconds (since process start, +1) at which the current case began; 0 = no case running.
 static CASE_START_MS: std::sync::atomic::AtomicU64 = std::sync::atomic::AtomicU64::new(0);
+/// Number of cases announced so far; mirrored into a shared mapping of `$VERIF_SCRATCH/announce.cnt` so that the
+/// coordinator can read it after the process has died in any way (panic, signal, watchdog). A re-run with
+/// `VERIF_TRACE_AT=<n>` prints exactly the n-th announced case: pinning costs one ordinary run.
+static ANNOUNCED: std::sync::atomic::AtomicU64 = std::sync::atomic::AtomicU64::new(0);
+static ANNOUNCE_MIRROR: std::sync::atomic::AtomicPtr<u64> = std::sync::atomic::AtomicPtr::new(std::ptr::null_mut());
+
+fn map_announce_mirror(scratch: &std::path::Path) {
+    use std::os::unix::io::AsRawFd;
+    let _ = std::fs::create_dir_all(scratch);
+    if let Ok(f) = std::fs::OpenOptions::new().read(true).write(true).create(true).truncate(true).open(scratch.join("announce.cnt")) {
+        if f.set_len(8).is_ok() {
+            let p = unsafe { libc::mmap(std::ptr::null_mut(), 8, libc::PROT_READ | libc::PROT_WRITE, libc::MAP_SHARED, f.as_raw_fd(), 0) };
+            if p != libc::MAP_FAILED {
+                ANNOUNCE_MIRROR.store(p as *mut u64, std::sync::atomic::Ordering::Relaxed);
+            }
+        }
+    }
+}
 static PROCESS_START: std::sync::OnceLock<Instant> = std::sync::OnceLock::new();
 
 fn now_ms() -> u64 {
@@ -121,6 +139,8 @@ pub struct Ctx {
     pub nshards: u64,
     pub build: String,
     pub trace: bool,
+    /// In trace mode: print only the case with this announce number (0 = every case).
+    pub trace_at: u64,
     /// Monitor mode (C08): only out-of-bounds outcomes count; wrong answers / ordinary panics are ignored.
     pub monitor: bool,
     pub replaying: bool,
@@ -163,6 +183,7 @@ impl Ctx {
             nshards: env_u64("VERIF_NSHARDS", 1).max(1),
             build: std::env::var("VERIF_BUILD").unwrap_or_else(|_| "unknown".into()),
             trace: std::env::var("VERIF_TRACE").map(|v| v == "1").unwrap_or(false),
+            trace_at: env_u64("VERIF_TRACE_AT", 0),
             monitor: std::env::var("VERIF_MONITOR").map(|v| !v.is_empty() && v != "0").unwrap_or(false),
             replaying: false,
             scratch,
@@ -204,7 +225,12 @@ impl Ctx {
     #[inline]
     pub fn announce(&self, case: impl FnOnce() -> Value) {
         CASE_START_MS.store(now_ms(), std::sync::atomic::Ordering::Relaxed);
-        if self.trace {
+        let n = ANNOUNCED.fetch_add(1, std::sync::atomic::Ordering::Relaxed) + 1;
+        let mirror = ANNOUNCE_MIRROR.load(std::sync::atomic::Ordering::Relaxed);
+        if !mirror.is_null() {
+            unsafe { std::ptr::write_volatile(mirror, n) };
+        }
+        if self.trace && (self.trace_at == 0 || self.trace_at == n) {
             let mut e = std::io::stderr().lock();
             let _ = writeln!(e, "CASE {}", case());
             let _ = e.flush();
@@ -392,6 +418,7 @@ pub fn run_driver(property: &str, explore: impl FnOnce(&mut Ctx), replay: impl F
     spawn_watchdog(limit, ctx.build.clone());
     match args.get(1).map(|s| s.as_str()) {
         Some("worker") => {
+            map_announce_mirror(&ctx.scratch);
             let r = guard(|| explore(&mut ctx));
             CASE_START_MS.store(0, std::sync::atomic::Ordering::Relaxed);
             if let Err(msg) = r {
